@@ -125,16 +125,15 @@ fn expect(spec: &FileSpec, name: &str, suffix: Option<&str>, want: bool) {
     let acc = accepted(spec, name, &infix_filter_numbers(), suffix);
     assert!(acc == want);
 }
-// @verif prop=C14,C16 tier=quick timeout=900 bounds=spec(basename-b,suffix-l),Numbers-filter,menu-of-9-names
+// @verif prop=C14,C16 tier=quick timeout=900 bounds=spec(basename-b,suffix-l),Numbers-filter,menu-of-8-names
 // Family members are listed, near misses are not: other suffix, no suffix at all, longer basename sharing the prefix, missing infix, current-file infix (Numbers filter), infix-like fragment inside a longer name.
 #[kani::proof]
-#[kani::unwind(30)]
+#[kani::unwind(16)]
 #[kani::stub(verif_support::reexp::catch_unwind, verif_support::stub_cu)]
 fn c14_filter_menu_basename() {
     vs::link_all();
     let spec = family_spec();
     expect(&spec, "b_r00001.l", Some("l"), true);
-    expect(&spec, "b_r00001.restart-0000.l", Some("l"), true);
     expect(&spec, "b_r00001.x", Some("l"), false);
     expect(&spec, "b_r00001", Some("l"), false);
     expect(&spec, "bb_r00001.l", Some("l"), false);
@@ -143,6 +142,18 @@ fn c14_filter_menu_basename() {
     expect(&spec, "b_rCURRENT.l", Some("l"), false);
     expect(&spec, "b_x_r00001.l", Some("l"), false);
     kani::cover!(true, "menu executed");
+    std::mem::forget(spec);
+}
+// @verif prop=C14,C16 tier=thorough timeout=900 bounds=spec(basename-b,suffix-l),name"b_r00001.restart-0000.l"
+// A rotated file carrying a collision suffix (.restart-0000) belongs to the family.
+#[kani::proof]
+#[kani::unwind(26)]
+#[kani::stub(verif_support::reexp::catch_unwind, verif_support::stub_cu)]
+fn c14_filter_restart_member() {
+    vs::link_all();
+    let spec = family_spec();
+    expect(&spec, "b_r00001.restart-0000.l", Some("l"), true);
+    kani::cover!(true, "executed");
     std::mem::forget(spec);
 }
 // @verif prop=C14,C16 tier=quick timeout=900 bounds=spec(no-basename,discriminant-dc,suffix-l),menu-of-5-names
@@ -161,7 +172,7 @@ fn c14_filter_menu_discriminant_only() {
     kani::cover!(true, "menu executed");
     std::mem::forget(spec);
 }
-// @verif prop=C14,C16 tier=quick timeout=900 bounds=spec(no-name-parts,suffix-l),menu-of-4-names
+// @verif prop=C14,C16,C01 tier=quick timeout=900 bounds=spec(no-name-parts,suffix-l),menu-of-4-names
 // With no fixed name part at all the infix is the whole stem.
 #[kani::proof]
 #[kani::unwind(16)]
